@@ -7,7 +7,7 @@ EXTENDS DString, Json
 CONSTANTS MaxOps, Sim      \* Sim = TRUE: one random successor per step (for -simulate)
 VARIABLE hist
 Positions(t) == {0, 1, Len(t) - 1, Len(t), Len(t) + 1, Len(t) \div 2, MAX} \ {-2}
-Lens(t) == {0, 1, 2, Len(t) - 1, Len(t), Len(t) + 1, MAX} \ {-2}
+Lens(t) == ({0, 1, 2, Len(t) - 1, Len(t), Len(t) + 1, MAX} \ {-2}) \cup {MAX1}
 Inits == {"P0", "I5", "I1022", "I1023", "I1024", "I2047", "I2048"}
 Adds == {"P0", "Pa", "Pab", "Pabc", "Ppct", "PX1023", "PX1024", "PX1025"}
 R(o) == o @@ [pos |-> 0, len |-> 0, p |-> "P0", q |-> "P0", c |-> "c0", k |-> "d", a |-> 0]   \* total records for Json
@@ -18,13 +18,15 @@ OpsK(t) == [
   append_ca |-> {R([op |-> "append_ca", p |-> p, len |-> b]) : p \in {"Pab", "PX1024"}, b \in {0, 1, 2, MAX}}
                 \cup {R([op |-> "append_ca", p |-> "PX1025", len |-> b]) : b \in {1023, 1024, 1025}},
   append_pf |-> {R([op |-> "append_pf", k |-> "d", a |-> a]) : a \in {7, -12345}}
-                \cup {R([op |-> "append_pf", k |-> "s", a |-> p]) : p \in {"Ppct", "PX253", "PX254", "PX255", "PX509", "PX510", "PX511", "PX1021", "PX1022", "PX1023", "PX2046"}},     \* formatted "<...>": 255-257, 511-513, 1023-1025, 2048 bytes (sizes at which an implementation might switch buffers)
+                \cup {R([op |-> "append_pf", k |-> "s", a |-> p]) : p \in {"Ppct", "PX253", "PX254", "PX255", "PX509", "PX510", "PX511", "PX1021", "PX1022", "PX1023", "PX2046"}}
+                \cup {R([op |-> "append_pf", k |-> k, a |-> p]) : k \in {"l", "pp"}, p \in {"P0", "Pab", "PX1023"}},     \* formatted "<...>": 255-257, 511-513, 1023-1025, 2048 bytes (sizes at which an implementation might switch buffers)
   insert    |-> {R([op |-> "insert", pos |-> q, p |-> p]) : q \in Positions(t), p \in Adds},
   insert_c  |-> {R([op |-> "insert_c", pos |-> q, c |-> c]) : q \in Positions(t), c \in {"c97", "c0", "c233", "c255"}},
   insert_ca |-> {R([op |-> "insert_ca", pos |-> q, p |-> "Pabc", len |-> b]) : q \in Positions(t), b \in {0, 1, 3, MAX}}
                 \cup {R([op |-> "insert_ca", pos |-> q, p |-> "PX1025", len |-> b]) : q \in Positions(t), b \in {1022, 1024, MAX}},
   insert_pf |-> {R([op |-> "insert_pf", pos |-> q, k |-> "d", a |-> 42]) : q \in Positions(t)}
-                \cup {R([op |-> "insert_pf", pos |-> q, k |-> "s", a |-> p]) : q \in Positions(t), p \in {"Ppct", "PX1022"}},
+                \cup {R([op |-> "insert_pf", pos |-> q, k |-> "s", a |-> p]) : q \in Positions(t), p \in {"Ppct", "PX1022"}}
+                \cup {R([op |-> "insert_pf", pos |-> q, k |-> k, a |-> p]) : q \in Positions(t), k \in {"l", "pp"}, p \in {"Pab", "PX1023"}},
   erase     |-> {R([op |-> "erase", pos |-> q, len |-> b]) : q \in Positions(t), b \in Lens(t)},
   copy      |-> {R([op |-> "copy", pos |-> q, len |-> b]) : q \in Positions(t), b \in Lens(t)},
   replace   |-> {R([op |-> "replace", pos |-> q, len |-> b, p |-> p, q |-> r]) :
